@@ -512,6 +512,7 @@ func writeC05Reads(t *Toks, h *rtp.Header, extra []uint8) {
 // element list) or wire bytes decoded with Header.Unmarshal.
 func observeC05(c *Case, desc *PacketIn, wire []byte, ops []c05Op, prevs ...[]byte) {
 	var h rtp.Header
+	var own []byte // start = wire: the buffer the header was decoded from (its values point into it)
 	startOk := true
 	if desc != nil {
 		c.I.Tok("hdr")
@@ -527,7 +528,8 @@ func observeC05(c *Case, desc *PacketIn, wire []byte, ops []c05Op, prevs ...[]by
 			c.Tag("start=wire-reused")
 		}
 		var err error
-		if try(func() { _, err = h.Unmarshal(cloneBytes(wire)) }) || err != nil {
+		own = cloneBytes(wire)
+		if try(func() { _, err = h.Unmarshal(own) }) || err != nil {
 			startOk = false
 		}
 	}
@@ -600,8 +602,24 @@ func observeC05(c *Case, desc *PacketIn, wire []byte, ops []c05Op, prevs ...[]by
 	ids := h.GetExtensionIDs()
 	var bs []byte
 	var err error
+	// a header decoded from a packet is written back INTO THAT PACKET'S BUFFER in a third of the
+	// histories that allow it (in-place rewrite: values that still point into the buffer are copied
+	// onto themselves or towards the front)
+	inplace := c.R.Chance(1, 3) && own != nil && c05InPlaceOK(&h, own)
+	if inplace {
+		c.Tag("marshal=in-place")
+	}
 	switch {
-	case try(func() { bs, err = h.Marshal() }):
+	case try(func() {
+		if inplace {
+			var n int
+			if n, err = h.MarshalTo(own); err == nil {
+				bs = own[:n]
+			}
+		} else {
+			bs, err = h.Marshal()
+		}
+	}):
 		o.Panic().Err("other").Nat(0)
 		c.Tag("marshal=panic")
 	case err != nil:
@@ -643,6 +661,38 @@ func observeC05(c *Case, desc *PacketIn, wire []byte, ops []c05Op, prevs ...[]by
 	default:
 		c.Tag("end=legacy")
 	}
+}
+
+// c05InPlaceOK: may the header be marshalled into `own`, the buffer it was decoded from?  Only when
+// the buffer is long enough and every element value that still points into it is written AT OR BEFORE
+// the place it is read from (then no element is overwritten before it has been copied: memmove
+// semantics per element).  A history that makes the block grow in front of such a value is not an
+// in-place rewrite the encoder supports, and is marshalled into a fresh buffer as before.
+func c05InPlaceOK(h *rtp.Header, own []byte) bool {
+	size := 0
+	if try(func() { size = h.MarshalSize() }) || size > len(own) {
+		return false
+	}
+	if !h.Extension {
+		return true
+	}
+	per := 0
+	switch h.ExtensionProfile {
+	case 0xBEDE:
+		per = 1
+	case 0x1000:
+		per = 2
+	}
+	_, pls := rtp.VerifExtensions(h)
+	at := int64(12 + 4*len(h.CSRC) + 4)
+	for _, pl := range pls {
+		at += int64(per)
+		if off := c02OffIn(pl, own); off >= 0 && off < at {
+			return false
+		}
+		at += int64(len(pl))
+	}
+	return true
 }
 
 var c05IDs = []int{0, 1, 2, 14, 15, 16, 254, 255}
